@@ -7,6 +7,7 @@ package main
 // construct searches anchored at a known function also look inside it.
 
 import (
+	"strings"
 	"golang.org/x/tools/go/ssa"
 )
 
@@ -346,5 +347,35 @@ func (c *Ctx) actsFor(fn, anchor *ssa.Function) bool {
 		return false
 	}
 	own := c.ownerNames(fn)
-	return len(own) == 1 && own[0] == c.fname(anchor)
+	if len(own) == 0 {
+		return false
+	}
+	an, rn := c.fname(anchor), c.fname(rootFn(anchor))
+	hit := false
+	for _, o := range own {
+		switch {
+		case o == an:
+			hit = true
+		case o == rn: // ownerNames lists a closure together with the function it is written in
+		case anchor.Parent() == nil && strings.HasPrefix(o, an+"$"):
+			hit = true // called from a closure of the anchor
+		default:
+			return false
+		}
+	}
+	return hit
+}
+
+// rootFn: the named function a closure (of any depth) is written in.
+func rootFn(fn *ssa.Function) *ssa.Function {
+	for fn != nil && fn.Parent() != nil {
+		fn = fn.Parent()
+	}
+	return fn
+}
+
+// actsForC: like actsFor, for code inside closures: the enclosing named function is anchor,
+// or a new helper running only on anchor's behalf.
+func (c *Ctx) actsForC(fn, anchor *ssa.Function) bool {
+	return c.actsFor(rootFn(fn), anchor)
 }
